@@ -212,7 +212,7 @@ RECURSIVE CBORable(_)
 CBORable(w) ==
     CASE w.k \in {"nil", "bool", "int", "float", "fspecial", "str"} -> TRUE
       [] w.k = "list" -> \A i \in 1..Len(w.v) : CBORable(w.v[i])
-      [] w.k = "map" -> \A i \in 1..Len(w.v) : w.v[i][1].k \in {"bool", "int", "float", "str"} /\ CBORable(w.v[i][1]) /\ CBORable(w.v[i][2])
+      [] w.k = "map" -> \A i \in 1..Len(w.v) : w.v[i][1].k \in {"bool", "int", "float", "fspecial", "str"} /\ CBORable(w.v[i][1]) /\ CBORable(w.v[i][2])
       [] w.k \in {"re", "junk", "struct"} -> FALSE
 
 \* JSON: numbers come back as float64, maps as map[string]any; map keys must be strings or
